@@ -322,6 +322,7 @@ def _where(sc, crashes) -> str:
     e = sc["effects"][k - 1] if 0 < k <= len(sc["effects"]) else ("?", "?")
     tgt = e[1]
     tgt = re.sub(r"[\w/]+\.zo\b", "*.zo", tgt)
+    tgt = re.sub(r"\d+", "N", tgt)  # e.g. a process id embedded in a scratch-file name
     return f"{'torn' if torn is not None else 'before'}-{e[0]}-{tgt}" + ("+second-crash" if len(crashes) > 1 else "")
 
 
